@@ -62,10 +62,12 @@ type cfg struct {
 	cancel   bool // cancel asker A0's context at some point
 	deadline bool // askers use a 5s virtual deadline instead of Background
 	forge    bool // mbapp only: a third party sends a reply carrying the ask's group id
+	preFail  bool // before the explored phase an ask fails at the server (nobody serves until its deadline)
+	workers  int
 }
 
 func (c cfg) name() string {
-	return fmt.Sprintf("%s-a%d-s%d-resp%v-close%v-cancel%v-dl%v-forge%v", c.stack.Kind, c.askers, c.servers, c.respLen, c.closer, c.cancel, c.deadline, c.forge)
+	return fmt.Sprintf("%s-a%d-s%d-resp%v-close%v-cancel%v-dl%v-forge%v", c.stack.Kind, c.askers, c.servers, c.respLen, c.closer, c.cancel, c.deadline, c.forge) + fmt.Sprintf("-prefail%v-w%d", c.preFail, c.workers)
 }
 
 func reqPayload(tag int) []byte { return []byte{0xC0 + byte(tag), byte(tag), 0x11, 0x22, 0x33} }
@@ -85,13 +87,30 @@ func scenario(c cfg, pb int) *explore.Scenario {
 		x.Data = &ledger{asks: map[string]*askResult{}, cancelled: map[string]bool{}, askStart: map[string]int{}}
 		x.MaxSteps = 8000
 		x.TimerHorizon = 90 * time.Second
+		x.NumWorkers = 1
 	}
 	sc.Body = func(x *vrt.Exec) {
 		l := led(x)
-		st := stacks.Build(stacks.Config{Kind: c.stack.Kind, N: c.askers + 1, InnerMTU: c.stack.InnerMTU, MTU: c.stack.MTU})
+		x.NumWorkers = c.workers
+		st := stacks.Build(stacks.Config{Kind: c.stack.Kind, N: c.askers + 1, InnerMTU: c.stack.InnerMTU, MTU: c.stack.MTU, Workers: c.workers})
 		server := st.Nodes[0]
 		bg := context.Background()
 		srvCtx, stopServers := hx.WithCancel(bg)
+		if c.preFail {
+			// history before the explored phase: one ask reaches the server while nobody is
+			// serving and dies there when its deadline passes (deterministic, virtual time)
+			x.NoBranch = true
+			pctx, pcf := vctx.WithTimeout(bg, time.Second)
+			buf := make([]byte, bufCap)
+			_, err := st.Nodes[1].Ask(pctx, buf, 0, p2p.IOVec{[]byte("nobody-serves-this")})
+			pcf()
+			if err == nil {
+				panic("pre-fail ask unexpectedly succeeded")
+			}
+			// let the server-side deadline of that request pass as well
+			x.SettleUntil(3 * time.Second)
+			x.NoBranch = false
+		}
 		for j := 0; j < c.servers; j++ {
 			name := fmt.Sprintf("S%d", j)
 			vrt.Go(name, func() {
@@ -332,6 +351,8 @@ func main() {
 			cfgs = append(cfgs, cfg{stack: stacks.Config{Kind: k, InnerMTU: 28, MTU: 200}, askers: 1, servers: 1, respLen: []int{bufCap}})
 		}
 		if k == "mbapp" {
+			// two receive workers after an ask that failed at the server (buffer recycling paths)
+			cfgs = append(cfgs, cfg{stack: s, askers: 2, servers: 2, respLen: []int{bufCap, bufCap - 1}, preFail: true, workers: 2})
 			// the asked server never answers; a third party forges a reply with the ask's id
 			cfgs = append(cfgs, cfg{stack: s, askers: 1, servers: 0, respLen: []int{3}, deadline: true, forge: true})
 		}
